@@ -8,7 +8,7 @@ for f in sorted(glob.glob('/verif/seeded/C*/meta.json')):
     runs = m.get('check_runs', [])
     own = [r for r in runs if r['check'] == pid]
     others = [r for r in runs if r['check'] != pid]
-    rows.append((pid, m, own, others))
+    rows.append((os.path.basename(os.path.dirname(f)), m, own, others))
 out = ['# Sensitivity of the checks', '',
        'Source (b) of DESIGN.md 10.6: one change per property written by a sub-agent that was given only the property text',
        'and a scratch worktree of /repo (nothing from /verif).  Each was confirmed by `tools/seedcheck.py` (demo passes on the',
